@@ -203,13 +203,12 @@ func TestC04(t *testing.T) {
 		"spare capacity inside a 0xA5-filled backing array (canary). distinct = distinct (type, version, encoding)")
 	rep.Assume("reference canonicalisation harness/ref (strings cut at length / first NUL, enums masked to wire width, floats by bit pattern)")
 	seed := vh.Seed()
-	all, err := shippedMessages()
-	if err != nil {
-		t.Fatal(err)
-	}
+	all := shippedOrViolation(rep, t)
+	var err error
+	_ = err
 	users, err := userMsgInfos()
 	if err != nil {
-		t.Fatal(err)
+		rep.Violation("msg=user what=init", "a well-formed user-defined message struct was rejected: "+err.Error(), nil)
 	}
 	types := append(append([]*msgInfo{}, all...), users...)
 	env := &c04env{rep: rep}
